@@ -53,6 +53,17 @@ fn digest<P: Instrumented>(state: &State<P>) -> String {
     s.push_str(&format!("|best:{:?}", state.best_individual().map(|i| (P::sol_hash(i.solution()), i.objective().value().to_bits()))));
     s.push_str(&format!("|evals:{:?}|iters:{:?}", state.try_get_value::<Evaluations>().ok(), state.try_get_value::<Iterations>().ok()));
     s.push_str(&format!("|log:{}", serde_json::to_string(&*state.log()).unwrap_or_default()));
+    {
+        use mahf::components::diversity::*;
+        macro_rules! div {
+            ($($T:ty),*) => {$(
+                if let Ok(d) = state.try_borrow::<Diversity<$T>>() {
+                    s.push_str(&format!("|{}:{:x}/{:x}", stringify!($T), d.diversity.to_bits(), d.max_diversity.to_bits()));
+                }
+            )*};
+        }
+        div!(DimensionWiseDiversity, PairwiseDistanceDiversity, TrueDiversity, DistanceToAveragePointDiversity);
+    }
     s
 }
 
@@ -87,6 +98,9 @@ fn run_variant<P: Instrumented + Clone + 'static>(cfg: &Configuration<P>, proble
 }
 
 fn compare<P: Instrumented + Clone + 'static>(cfg: &Configuration<P>, problem: &P, seed: u64, threads: usize, jitter: u64, name: &str, at: &str, cl: &mut u64) -> Result<(), Failure> {
+    // taken before `cfg` is used for the first time, and used on the sibling instance first (see below)
+    let reused = cfg.clone();
+    let sibling = problem.sibling();
     let reference = match run_variant(cfg, problem, seed, None, 0) {
         Ok(r) => r.0,
         Err(_) => return Ok(()), // failing runs are C16's subject
@@ -120,6 +134,24 @@ fn compare<P: Instrumented + Clone + 'static>(cfg: &Configuration<P>, problem: &
             Err(e) => return soft_fail(Failure::new(format!("C08 {name} fails only under: {how}"), format!("{at}: reference run succeeded, variant failed: {e}"))),
         }
     }
+    // a configuration object whose FIRST use was on another instance of the problem type (another dimension and
+    // domain / matrix): a configuration is a description, runs must not leave anything behind in it
+    let _ = run_variant(&reused, &sibling, seed, None, 0);
+    match run_variant(&reused, problem, seed, None, 0) {
+        Ok((d, _)) => {
+            *cl |= 16;
+            if d != reference {
+                let pos = d.bytes().zip(reference.bytes()).position(|(a, b)| a != b).unwrap_or(0);
+                let lo = pos.saturating_sub(60);
+                let hi = (pos + 60).min(d.len()).min(reference.len());
+                return soft_fail(Failure::new(
+                    format!("C08 {name} result depends on: earlier use of the configuration object on another problem"),
+                    format!("{at}: after the same configuration object was run on another instance ({}), its run on the original instance differs from the first one with the same seed; first difference near byte {pos}:\n reference ...{}...\n variant   ...{}...", sibling.name(), &reference[lo..hi], &d[lo..hi]),
+                ));
+            }
+        }
+        Err(e) => return soft_fail(Failure::new(format!("C08 {name} fails only under: earlier use of the configuration object on another problem"), format!("{at}: reference run succeeded, variant failed: {e}"))),
+    }
     // a different seed gives (almost surely) a different run: guards against a harness that ignores the seed
     if let Ok((d, _)) = run_variant(cfg, problem, seed ^ 0x5555_5555, None, 0) {
         if d != reference {
@@ -151,7 +183,7 @@ impl Check for DetCheck {
         "C08/determinism".into()
     }
     fn classes(&self) -> &'static [&'static str] {
-        &["completion order differed from call order in a parallel variant", "another seed gives a different run", ">= 4 threads", "generated configuration"]
+        &["completion order differed from call order in a parallel variant", "another seed gives a different run", ">= 4 threads", "generated configuration", "configuration object reused after a run on another problem instance"]
     }
     fn oracle(&self, c: &DetCase) -> Outcome {
         let mut cl = 0u64;
@@ -433,7 +465,7 @@ fn det_strategy(max_iters: u32) -> impl Strategy<Value = DetCase> {
 }
 
 pub fn run_all(ctx: &mut Ctx, replay: Option<&Path>) {
-    ctx.rule("determinism: case = (template with valid parameters and instance, or a generated configuration of shipped components; seed; thread-pool size in {1,2,3,4,8,16}; latency-jitter stream); the digest (every population level with solutions bit-exact and objectives, best individual, Evaluations, Iterations, serialised log) of a sequential unjittered run is compared with: a second sequential run, a sequential run with jittered objective latency, the parallel evaluator in the chosen pool and in a 16-thread pool with different jitter, the cloned configuration, and a clone of the clone run in parallel; non-trivial = a parallel variant in which objective calls actually completed out of call order (measured by the instrumented objective). random: Random::new(seed) twice gives identical streams and identical children recursively (depth <= 3), different seeds give different 16-word prefixes, config() reports name/seed, children keep the generator type, optimize_with keeps a user-supplied generator and provides one otherwise. batch: par_experiment over 0-8 runs, 1-3 named problems, pools of 1..16 threads: exact file set (configuration.ron + name_run.cbor), identical files across pool sizes, every log equal to a direct optimize_with(Random::new(run)); distinct by case");
+    ctx.rule("determinism: case = (template with valid parameters and instance, or a generated configuration of shipped components; seed; thread-pool size in {1,2,3,4,8,16}; latency-jitter stream); the digest (every population level with solutions bit-exact and objectives, best individual, Evaluations, Iterations, serialised log) of a sequential unjittered run is compared with: a second sequential run, a sequential run with jittered objective latency, the parallel evaluator in the chosen pool and in a 16-thread pool with different jitter, the cloned configuration, a clone of the clone run in parallel, and the same configuration object after it has been run on another instance of the problem type (other dimension and domain / matrix); generated configurations optionally contain one of the four diversity measures (their state is part of the digest) and populations of 130-139 individuals; non-trivial = a parallel variant in which objective calls actually completed out of call order (measured by the instrumented objective). random: Random::new(seed) twice gives identical streams and identical children recursively (depth <= 3), different seeds give different 16-word prefixes, config() reports name/seed, children keep the generator type, optimize_with keeps a user-supplied generator and provides one otherwise. batch: par_experiment over 0-8 runs, 1-3 named problems, pools of 1..16 threads: exact file set (configuration.ron + name_run.cbor), identical files across pool sizes, every log equal to a direct optimize_with(Random::new(run)); distinct by case");
     ctx.assume("rayon's scheduler is not owned by the harness: pool sizes and pseudo-random objective latencies perturb completion order (measured), they do not enumerate interleavings");
     let d = DetCheck;
     let r = RngCheck;
